@@ -230,6 +230,45 @@ pub fn es_e(thorough: bool) -> Family {
     Family::Periodic { patterns: es_e_patterns(), lengths }
 }
 
+/// ES-I: multi-run inputs: runs of characters native to different modes, every combination of
+/// two runs with lengths 0..=k2 and of three runs with lengths 1..=k3. Mode switches in the
+/// middle of the data (with every phase of the triple / quadruple packing) live here.
+pub fn es_i(k2: usize, k3: usize) -> Family {
+    let units: Vec<&[u8]> = vec![b"A", b"a", b"*A^ ", &[0x80], b"1", b"A>*", b"~"];
+    let run = |u: &[u8], k: usize| -> Vec<u8> { u.iter().cycle().take(k).cloned().collect() };
+    let mut out = Vec::new();
+    for (i, u1) in units.iter().enumerate() {
+        for (j, u2) in units.iter().enumerate() {
+            if i == j {
+                continue;
+            }
+            for a in 0..=k2 {
+                for b in 1..=k2 {
+                    let mut v = run(u1, a);
+                    v.extend(run(u2, b));
+                    out.push(v);
+                }
+            }
+            for (l, u3) in units.iter().enumerate() {
+                if l == j {
+                    continue;
+                }
+                for a in 1..=k3 {
+                    for b in 1..=k3 {
+                        for c in 1..=k3 {
+                            let mut v = run(u1, a);
+                            v.extend(run(u2, b));
+                            v.extend(run(u3, c));
+                            out.push(v);
+                        }
+                    }
+                }
+            }
+        }
+    }
+    Family::list(out)
+}
+
 pub const MACRO05: &[u8] = b"[)>\x1e05\x1d";
 pub const MACRO06: &[u8] = b"[)>\x1e06\x1d";
 pub const MACRO_TRAIL: &[u8] = b"\x1e\x04";
